@@ -1083,6 +1083,115 @@ def _node_query(ctx, f, T: ast.Name, rid: str):
     return gn, part_is(vid.elts[0]), part_is(vid.elts[1]), f"{norm(vid.elts[0])}/{norm(vid.elts[1])} (in {hf.qualname})"
 
 
+def _stable_string(ctx, f, name: ast.Name):
+    if comp_generator_of(name) is not None:
+        return None
+    defs = ctx.rd(f).defs_reaching(name)
+    if len(defs) != 1 or isinstance(defs[0], ast.arguments):
+        return None
+    v = assigned_value(defs[0], name.id)
+    if isinstance(v, ast.JoinedStr) or (isinstance(v, ast.Constant) and isinstance(v.value, str)):
+        from engine.util import alias_is_stable
+        if alias_is_stable(ctx, f, defs[0], name, v):
+            return v
+    return None
+
+
+def _as_path_fstring(ctx, f, e: ast.AST, depth: int = 4) -> ast.AST:
+    """A path expression as an f-string whose holes are the ORIGINAL nodes: f-strings with holes that are locals bound once to
+    (parts of) strings are flattened (`f"{t}{suffix}"`, suffix = f"/{op}/{var}"), `"/".join((a, b, c))` becomes `f"{a}/{b}/{c}"`.
+    Anything else is returned unchanged."""
+    if isinstance(e, ast.Call) and isinstance(e.func, ast.Attribute) and e.func.attr == "join" and isinstance(e.func.value, ast.Constant) \
+            and isinstance(e.func.value.value, str) and len(e.args) == 1 and isinstance(e.args[0], (ast.Tuple, ast.List)) \
+            and not any(isinstance(x, ast.Starred) for x in e.args[0].elts):
+        values = []
+        for i, x in enumerate(e.args[0].elts):
+            if i:
+                values.append(ast.Constant(value=e.func.value.value))
+            if isinstance(x, ast.Constant) and isinstance(x.value, str):
+                values.append(x)
+            else:
+                values.append(ast.FormattedValue(value=x, conversion=-1, format_spec=None))
+        new = ast.JoinedStr(values=values)
+        ast.copy_location(new, e)
+        new._parent = getattr(e, "_parent", None)
+        return _as_path_fstring(ctx, f, new, depth)
+    if not isinstance(e, ast.JoinedStr):
+        return e
+    values, changed = [], False
+    for part in e.values:
+        if isinstance(part, ast.FormattedValue) and part.conversion == -1 and part.format_spec is None and isinstance(part.value, ast.Name) \
+                and depth > 0:
+            v = _stable_string(ctx, f, part.value)
+            if v is not None:
+                inner = _as_path_fstring(ctx, f, v if isinstance(v, ast.JoinedStr) else ast.JoinedStr(values=[v]), depth - 1)
+                values.extend(inner.values)
+                changed = True
+                continue
+        values.append(part)
+    # merge adjacent constants so that the template text is canonical
+    merged = []
+    for v in values:
+        if isinstance(v, ast.Constant) and merged and isinstance(merged[-1], ast.Constant):
+            merged[-1] = ast.Constant(value=str(merged[-1].value) + str(v.value))
+        else:
+            merged.append(v)
+    if not changed and len(merged) == len(e.values):
+        return e
+    new = ast.JoinedStr(values=merged)
+    ast.copy_location(new, e)
+    new._parent = getattr(e, "_parent", None)
+    return new
+
+
+def _unmemoised(ctx, f, call: ast.Call, rid: str):
+    """`call` invokes a function nested in f that memoises the value of one expression under its only parameter in a dict of the
+    enclosing function (`if p not in M: M[p] = E` ... `return M[p]`): (E, parameter name, argument of the call); None otherwise."""
+    g = f.nested.get(call.func.id)
+    if g is None or len(call.args) + len(call.keywords) != 1:
+        return None
+    params = [a.arg for a in g.node.args.posonlyargs + g.node.args.args + g.node.args.kwonlyargs]
+    if len(params) != 1 or g.node.args.vararg or g.node.args.kwarg:
+        return None
+    prm = params[0]
+    arg = call.args[0] if call.args else call.keywords[0].value
+    body = [st for st in g.node.body if not (isinstance(st, ast.Expr) and isinstance(st.value, ast.Constant))]
+
+    def slot(e):          # M[p] -> M
+        if isinstance(e, ast.Subscript) and isinstance(e.value, ast.Name) and isinstance(e.slice, ast.Name) and e.slice.id == prm:
+            return e.value.id
+        return None
+    if len(body) != 2 or not isinstance(body[0], ast.If) or body[0].orelse or len(body[0].body) != 1 or not isinstance(body[1], ast.Return):
+        return None
+    t, st, ret = body[0].test, body[0].body[0], body[1]
+    memo = slot(ret.value) if ret.value is not None else None
+    if memo is None or not (isinstance(t, ast.Compare) and len(t.ops) == 1 and isinstance(t.ops[0], ast.NotIn) and isinstance(t.left, ast.Name)
+                            and t.left.id == prm and isinstance(t.comparators[0], ast.Name) and t.comparators[0].id == memo):
+        return None
+    if not (isinstance(st, ast.Assign) and len(st.targets) == 1 and slot(st.targets[0]) == memo):
+        return None
+    # the memo is a dict of the enclosing function that nothing else fills, and the function does not re-bind what E reads
+    defs = [n for n in ast.walk(f.node) if isinstance(n, ast.Name) and n.id == memo and isinstance(n.ctx, (ast.Store, ast.Del))]
+    other = [n for n in ast.walk(f.node) if isinstance(n, ast.Subscript) and isinstance(n.value, ast.Name) and n.value.id == memo
+             and isinstance(n.ctx, (ast.Store, ast.Del)) and n is not st.targets[0]]
+    mut = [n for n in ast.walk(f.node) if isinstance(n, ast.Call) and isinstance(n.func, ast.Attribute) and isinstance(n.func.value, ast.Name)
+           and n.func.value.id == memo and n.func.attr in ("update", "setdefault", "pop", "clear", "popitem")]
+    if len(defs) != 1 or other or mut:
+        raise AnalysisError(f"{rid}: the memo `{memo}` of `{call.func.id}` is filled in more than one place (unrecognised form)")
+    dst = defs[0]
+    while not isinstance(dst, ast.stmt):
+        dst = parent(dst)
+    if not (isinstance(dst, ast.Assign) and ((isinstance(dst.value, ast.Dict) and not dst.value.keys)
+                                             or (isinstance(dst.value, ast.Call) and call_name(dst.value) == "dict" and not dst.value.args))):
+        raise AnalysisError(f"{rid}: the memo `{memo}` of `{call.func.id}` is not a fresh dict of this call (unrecognised form)")
+    free = {n.id for n in ast.walk(st.value) if isinstance(n, ast.Name)} - {prm}
+    for nm in free:
+        stores = [n for n in ast.walk(f.node) if isinstance(n, ast.Name) and n.id == nm and isinstance(n.ctx, (ast.Store, ast.Del))]
+        if len(stores) > 1:
+            raise AnalysisError(f"{rid}: `{nm}`, read by the memoised expression `{norm(st.value)}`, is re-bound (the memo key would miss it)")
+    return st.value, prm, arg
+
+
 def r3_same_path(ctx, rid):
     f0 = ctx.repo.get_func(REL, f"{CLS}.get_variable_positions")
     # private helpers (node look-up, relabel + index look-up returning a pair, ...) are spliced in; the anchors stay calls
@@ -1133,11 +1242,16 @@ def r3_same_path(ctx, rid):
                 defs = rd.defs_reaching(v)
                 if len(defs) == 1 and empty_dict(assigned_value(defs[0], v.id)):
                     sub_maps.setdefault(v.id, {})[id(defs[0])] = keys
-    # a local may also stand for the index map itself on another branch (`m = <index map>`): prefix []
+    # a local may also stand for the index map itself on another branch (`m = <index map>`): prefix []; or for a sub-map that
+    # is read back (`m = <index map>[k]`)
     for st in ordered(walk_shallow(f.node)):
-        if isinstance(st, ast.Assign) and len(st.targets) == 1 and isinstance(st.targets[0], ast.Name) and isinstance(st.value, ast.Name) \
-                and st.value.id == idx_map and st.targets[0].id != idx_map:
-            sub_maps.setdefault(st.targets[0].id, {})[id(st)] = []
+        if isinstance(st, ast.Assign) and len(st.targets) == 1 and isinstance(st.targets[0], ast.Name) and st.targets[0].id != idx_map:
+            if isinstance(st.value, ast.Name) and st.value.id == idx_map:
+                sub_maps.setdefault(st.targets[0].id, {})[id(st)] = []
+            elif isinstance(st.value, ast.Subscript) and isinstance(st.value.ctx, ast.Load) and not isinstance(st.value.slice, ast.Slice):
+                root_, keys_ = _unchain(st.value)
+                if root_ == idx_map:
+                    sub_maps.setdefault(st.targets[0].id, {})[id(st)] = keys_
     entries, var_stores = [], []
     for st in ordered(walk_shallow(f.node)):
         for t, v in stores(st):
@@ -1181,10 +1295,20 @@ def r3_same_path(ctx, rid):
         used.add(id(vs))
         A = call.args[0] if call.args else call.keywords[0].value
         B = resolve_local(ctx, f, vvalue)
+        memo_param = memo_arg = None
+        if isinstance(B, ast.Call) and isinstance(B.func, ast.Name) and B.func.id in f.nested:
+            # a local function that memoises a pure call under its complete argument: look at the memoised call
+            um = _unmemoised(ctx, f, B, rid)
+            if um is not None:
+                B, memo_param, memo_arg = um
         if not (isinstance(B, ast.Call) and call_name(B) == "_relabel_var" and len(B.args) + len(B.keywords) == 2):
             raise AnalysisError(f"{rid}: `{norm(vs)}`: the backend key is not a `_relabel_var(path, map)` result (unrecognised form)")
         bargs = list(B.args) + [k.value for k in sorted(B.keywords, key=lambda k: 0 if k.arg == "var" else 1)]
         R, M = bargs[0], bargs[1]
+        if memo_param is not None:
+            if not (isinstance(R, ast.Name) and R.id == memo_param):
+                raise AnalysisError(f"{rid}: the memoised call `{norm(B)}` does not relabel its own argument (unrecognised form)")
+            R = memo_arg
         Ar, Rr = resolve_local(ctx, f, A), resolve_local(ctx, f, R)
         facts = {"index_of": norm(A), "relabelled": norm(R), "index_map_key": [norm(k) for k in keys], "var_map_key": [norm(k) for k in vkeys]}
         # (i) same path, proper table
@@ -1192,7 +1316,23 @@ def r3_same_path(ctx, rid):
         if not map_ok:
             Mr = resolve_local(ctx, f, M)
             map_ok = isinstance(Mr, ast.Attribute) and Mr.attr == "_vectorization_labels"
-        if (same_value(ctx, f, A, R) or same_value(ctx, f, Ar, Rr)) and map_ok:
+        def same_path(x, y) -> bool:
+            """both are path strings with the same text parts and, hole by hole, the same values (whatever spelling built them)"""
+            px, py = _as_path_fstring(ctx, f, x), _as_path_fstring(ctx, f, y)
+            if not (isinstance(px, ast.JoinedStr) and isinstance(py, ast.JoinedStr)) or len(px.values) != len(py.values):
+                return False
+            for u, v in zip(px.values, py.values):
+                if isinstance(u, ast.Constant) and isinstance(v, ast.Constant):
+                    if u.value != v.value:
+                        return False
+                elif isinstance(u, ast.FormattedValue) and isinstance(v, ast.FormattedValue):
+                    if not (same_value(ctx, f, u.value, v.value)
+                            or same_value(ctx, f, resolve_local(ctx, f, u.value), resolve_local(ctx, f, v.value))):
+                        return False
+                else:
+                    return False
+            return True
+        if (same_value(ctx, f, A, R) or same_value(ctx, f, Ar, Rr) or same_path(Ar, Rr)) and map_ok:
             ctx.ok(rid, f0, st, "the index and the backend key of this entry are computed from the same path", facts, label=f"entry {tag}: one path")
         elif not map_ok:
             ctx.violation(rid, f0, vs, f"the backend key is re-labelled with `{norm(M)}` instead of the vectorisation label map", facts,
@@ -1214,6 +1354,7 @@ def r3_same_path(ctx, rid):
             continue
         # the path expression: an f-string `<node>/<op>/<var>` written in place, or an element of a list of such strings that was
         # built by one comprehension over the node list (`keys = [f"{t}/{op}/{var}" for t in nodes]`; `for k in keys` / `keys[0]`)
+        Ar = _as_path_fstring(ctx, f, Ar)
         js, elem_of, const_idx, key_list = Ar, None, None, None
         pf = f          # the function in which the path template, its holes and the node list live
         if not isinstance(Ar, ast.JoinedStr):
@@ -1238,8 +1379,8 @@ def r3_same_path(ctx, rid):
                         comp = resolve_local(ctx, pf, hrets[0].value) if isinstance(hrets[0].value, ast.Name) else hrets[0].value
             if isinstance(comp, ast.ListComp) and len(comp.generators) == 1 and not comp.generators[0].ifs \
                     and isinstance(comp.generators[0].target, ast.Name) and isinstance(comp.generators[0].iter, ast.Name) \
-                    and isinstance(comp.elt, ast.JoinedStr):
-                js, elem_of, key_list = comp.elt, comp.generators[0], src
+                    and isinstance(_as_path_fstring(ctx, pf, comp.elt), ast.JoinedStr):
+                js, elem_of, key_list = _as_path_fstring(ctx, pf, comp.elt), comp.generators[0], src
             else:
                 raise AnalysisError(f"{rid}: the path `{norm(A)}` handed to _get_var_idx is not an f-string `<node>/<op>/<var>` "
                                     f"(unrecognised form)")
@@ -1268,6 +1409,19 @@ def r3_same_path(ctx, rid):
             b = binding_loop(ctx, pf, nh)
             if b is not None and isinstance(b[0], ast.Name) and isinstance(b[1], ast.Name):
                 T = b[1]
+            elif b is not None and isinstance(b[0], ast.Tuple) and len(b[0].elts) == 2 and position_in_target(b[0], nh.id) == 1 \
+                    and isinstance(b[1], ast.Call) and call_name(b[1]) == "enumerate" and len(b[1].args) == 1 and isinstance(b[1].args[0], ast.Name):
+                T = b[1].args[0]
+            elif b is None:
+                # index loop: `node = nodes[i]` with i bound by `for i in range(len(nodes))`
+                el = resolve_local(ctx, pf, nh)
+                if isinstance(el, ast.Subscript) and isinstance(el.slice, ast.Name) and isinstance(el.value, ast.Name):
+                    ib = binding_loop(ctx, pf, el.slice)
+                    if ib is not None and isinstance(ib[0], ast.Name) and isinstance(ib[1], ast.Call) and isinstance(ib[1].func, ast.Name) \
+                            and ib[1].func.id == "range" and len(ib[1].args) == 1 and isinstance(ib[1].args[0], ast.Call) \
+                            and call_name(ib[1].args[0]) == "len" and len(ib[1].args[0].args) == 1 \
+                            and same_value(ctx, pf, ib[1].args[0].args[0], el.value):
+                        T = el.value
         elif isinstance(nh, ast.Subscript) and isinstance(nh.value, ast.Name) and isinstance(nh.slice, ast.Constant):
             T = nh.value
             why = always_same_element([T], nh.slice.value)
@@ -1303,18 +1457,36 @@ def r4_positions_inside_backend_variable(ctx, rid):
     be taken from the stored layout (so that dropping it is sufficient)."""
     import ast as _ast
     from engine.util import call_name as _cn, stmt_calls as _sc
-    f = ctx.repo.get_func(REL, "CircuitTemplate.run")
+    f0 = ctx.repo.get_func(REL, "CircuitTemplate.run")
+    # the output look-up (and the input loop, state storing, ...) may have been moved into private helpers: they are spliced in
+    f = inlined(ctx, f0, keep=("get_variable_positions", "_add_input", "_get_var_idx"))
     cfg = ctx.cfg(f)
     applies = [st for st in cfg.stmts() if not isinstance(st, (_ast.If, _ast.For, _ast.While, _ast.Try, _ast.With)) and any(
         _cn(c) == "apply" and isinstance(c.func, _ast.Attribute) for c in _sc(st))]
+    def looks_up_positions(c):
+        """the call computes output positions on its receiver: get_variable_positions itself, or a method of the same class that
+        could not be spliced in (receiver of unknown type) and calls get_variable_positions on its own self"""
+        if _cn(c) == "get_variable_positions" and isinstance(c.func, _ast.Attribute):
+            return True
+        if not isinstance(c.func, _ast.Attribute):
+            return False
+        ts, how = ctx.cg.resolve_call(f, c)
+        if len(ts) != 1 or how == "external" or str(how).startswith("unresolved"):
+            return False
+        g_ = ts[0]
+        if g_.cls is None or f0.cls is None or g_.cls.name != f0.cls.name or g_.is_static:
+            return False
+        inner = [x for x in walk_shallow(g_.node) if isinstance(x, _ast.Call) and _cn(x) == "get_variable_positions"]
+        return bool(inner) and all(isinstance(x.func, _ast.Attribute) and isinstance(x.func.value, _ast.Name) and x.func.value.id == g_.self_name
+                                   for x in inner)
     uses = [st for st in cfg.stmts() if not isinstance(st, (_ast.If, _ast.For, _ast.While, _ast.Try, _ast.With)) and any(
-        _cn(c) == "get_variable_positions" for c in _sc(st))]
+        looks_up_positions(c) for c in _sc(st))]
     if len(applies) != 1 or not uses:
         raise AnalysisError(f"{rid}: run(): apply / get_variable_positions calls not recognised ({len(applies)}, {len(uses)})")
     recvs = set()
     for st in uses:
         for c in _sc(st):
-            if _cn(c) == "get_variable_positions" and isinstance(c.func, _ast.Attribute):
+            if looks_up_positions(c):
                 recvs.add(_ast.unparse(c.func.value))
     if len(recvs) != 1:
         raise AnalysisError(f"{rid}: run(): get_variable_positions is called on several receivers {sorted(recvs)}")
@@ -1333,10 +1505,10 @@ def r4_positions_inside_backend_variable(ctx, rid):
     for u in uses:
         path = cfg.reachable_avoiding(applies[0], u, drops)
         if path is None:
-            ctx.ok(rid, f, u, f"the stale state-vector layout of `{recv}` is dropped between compilation and the computation of output positions",
+            ctx.ok(rid, f0, u, f"the stale state-vector layout of `{recv}` is dropped between compilation and the computation of output positions",
                    {"receiver": recv})
         else:
-            ctx.violation(rid, f, u, f"run() computes output positions while `{recv}._state_var_indices` may still hold the state-vector layout of an "
+            ctx.violation(rid, f0, u, f"run() computes output positions while `{recv}._state_var_indices` may still hold the state-vector layout of an "
                                      f"earlier get_run_func/get_jacobian_func call: _get_var_idx then returns state-vector positions and run() slices "
                                      f"the variable's own record with them (another unit's trajectory under the requested label)",
                           {"witness": cfg.path_str(path), "receiver": recv})
